@@ -15,11 +15,11 @@ const (
 )
 
 // The predicates / conversions the harness hands to the library (and to the references).
-func classOf(x int) int   { return x % 10 }
-func keepFn(x int) bool   { return classOf(x) != 0 }           // Filter
-func whileFn(x int) bool  { return classOf(x) != 2 }           // While
+func classOf(x int) int    { return x % 10 }
+func keepFn(x int) bool    { return classOf(x) != 0 }          // Filter
+func whileFn(x int) bool   { return classOf(x) != 2 }          // While
 func sameFn(a, b int) bool { return classOf(a) == classOf(b) } // CompactFunc / Runs
-func mapFn(x int) int     { return x + 1000 }                  // Map / MapStream (keeps class and origin)
+func mapFn(x int) int      { return x + 1000 }                 // Map / MapStream (keeps class and origin)
 
 // originOf recovers the input index of a "unique mode" value (10*(i+1)+class, +1000 per Map).
 func originOf(x int) int { return (x%1000)/10 - 1 }
